@@ -87,6 +87,10 @@ def accuracy_case(c):
     rng = np.random.default_rng(c["seed"])
     t = smooth_template(rng, tuple(c["shape"]))
     d = np.array(c["d"])
+    if c["model"] == "fsc":
+        # FSC averages the correlation over all shells: a template with (numerically) empty high-frequency shells is
+        # degenerate for it (those shells correlate rounding noise), so FSC cases use a broadband template
+        t = (t + 0.2 * float(t.max()) * rng.normal(size=t.shape)).astype(np.float32)
     img = displaced(t, d)
     M = {"zncc": ZNCCAlignment, "ncc": NCCAlignment, "pcc": PCCAlignment, "fsc": FSCAlignment}[c["model"]]
     kw = {}
